@@ -408,6 +408,11 @@ class Path:
     def check(self, name, cond):
         ob = self.x.obligation(name)
         ob.queries += 1
+        if name not in self.x.reached:
+            # vacuity guard: the obligation must be reached at least once
+            # under a satisfiable path condition
+            if self._check() != z3.unsat:
+                self.x.reached.add(name)
         if isinstance(cond, bool):
             if cond:
                 ob.discharged += 1
@@ -530,6 +535,7 @@ class Explorer:
         self.work = []
         self.obligations = {}
         self.covered = set()
+        self.reached = set()
         self.stats = Stats()
         self.errors = []          # (kind, message, decisions)
         self.path = None
